@@ -553,6 +553,7 @@ func (prop) ExtraPhase(tier string, seed uint64, deadline time.Time) (*driver.Ex
 	hashes := map[string]bool{}
 	ends := map[string]int{}
 	fans := map[string]int{}
+	detChecks := 0
 	runs := 0
 	var sample any
 	// however loaded the machine is, a minimum is always run: 3 programs, 30 schedules each
@@ -579,6 +580,13 @@ func (prop) ExtraPhase(tier string, seed uint64, deadline time.Time) (*driver.Ex
 			ends[r.end]++
 			hashes[r.out] = true
 			cls, det := judgeB(sc, r)
+			if k%25 == 0 {
+				// determinism self-check: the same schedule seed in a second process
+				if r2 := runSchedule(bin, ss, sp); r2.out != r.out {
+					return nil, fmt.Errorf("layer B: schedule seed %d of program %d does not replay (outputs of two processes differ)", ss, pi)
+				}
+				detChecks++
+			}
 			if strings.HasPrefix(cls, "infra-") {
 				return nil, fmt.Errorf("layer B: %s", det)
 			}
@@ -607,6 +615,7 @@ func (prop) ExtraPhase(tier string, seed uint64, deadline time.Time) (*driver.Ex
 	er.Coverage["schedules_run"] = runs
 	er.Coverage["distinct_printed_histories"] = len(hashes)
 	er.Coverage["run_endings"] = ends
+	er.Coverage["schedules_run_twice_with_identical_output"] = detChecks
 	er.Coverage["programs_by_receiver_fan_on_an_early_closed_channel"] = fans
 	er.Coverage["sample"] = sample
 	er.Coverage["components"] = "real: llgo compiler lowering of chan/select/go, llgo-compiled runtime; stub: pthread mutex/cond/once/sem and thread scheduling (toolchain/libdetsched.c), LLVM 14, bdwgc with collection disabled"
